@@ -84,6 +84,8 @@ def _apply(objs, op, values):
         kw = arg[0]
         if kw in ("additionalPropertiesB", "additionalItemsB"):
             setattr(o, kw[:-1], True)
+        elif kw in ("additionalProperties", "additionalItems"):
+            setattr(o, kw, True)          # the constructor default of these two is True
         elif kw in ("depsL", "depsS"):
             setattr(o, "dependencies", NotPassed())
         elif kw == "itemsT":
@@ -96,6 +98,8 @@ def _apply(objs, op, values):
                                            source=(p["source"] if p["source"] != p["attr"] else None))
     elif name == "delprop":
         del o.properties[arg[0]]
+    elif name == "moveprop":
+        o.properties[arg[1]] = o.properties.pop(arg[0])
     elif name == "togglereq":
         pr = o.properties[arg[0]]
         pr.required = not pr.required
